@@ -2,6 +2,8 @@ package valid
 
 import (
 	"fmt"
+	"math"
+	"math/big"
 	"reflect"
 	"strconv"
 	"strings"
@@ -148,6 +150,11 @@ func IsExported(fieldName string) bool {
 	return first >= 'A' && first <= 'Z'
 }
 
+// cmpFloatInt 精确比较 float64 与 int 的大小(val 不能为 NaN), 返回 -1, 0, 1
+func cmpFloatInt(val float64, b int) int {
+	return new(big.Float).SetFloat64(val).Cmp(new(big.Float).SetInt64(int64(b)))
+}
+
 // validInputSize 验证输入的大小
 func validInputSize(min, max int, tv reflect.Value, isHasEqual ...bool) (isLessThan, isMoreThan bool, valStr, unitStr string) {
 	hasEqual := true // 标记对结果默认包含闭区间
@@ -180,6 +187,12 @@ func validInputSize(min, max int, tv reflect.Value, isHasEqual ...bool) (isLessT
 	case reflect.Float32, reflect.Float64:
 		val := tv.Float()
 		valStr = ToStr(val)
+		if math.Abs(val) >= 1<<53 { // 超出 float64 的整数精度时 float64(min/max) 会丢精度, 需与整数边界精确比较
+			lo, hi := cmpFloatInt(val, min), cmpFloatInt(val, max)
+			isLessThan = lo < 0 || (!hasEqual && lo == 0)
+			isMoreThan = hi > 0 || (!hasEqual && hi == 0)
+			return
+		}
 		if hasEqual {
 			if val < float64(min) {
 				isLessThan = true
